@@ -198,6 +198,70 @@ theorem depsStep_removes (live : List Sym) (s : Stmt) (y : Sym)
   rw [if_pos this]
   simp [hy, hr]
 
+theorem noUseBeforeDef_snoc (pre : List Stmt) (s : Stmt) (h : noUseBeforeDef (pre ++ [s]) = true) :
+    noUseBeforeDef pre = true ∧ (∀ t ∈ pre, ∀ y ∈ t.rhs, y ∉ s.defs) ∧ (∀ y ∈ s.rhs, y ∉ s.defs) := by
+  induction pre with
+  | nil =>
+    simp only [List.nil_append, noUseBeforeDef, Bool.and_eq_true, List.all_eq_true] at h
+    refine ⟨rfl, by simp, ?_⟩
+    intro y hy; have := (h.1 y hy).1; simpa using this
+  | cons t pre ih =>
+    simp only [List.cons_append, noUseBeforeDef, Bool.and_eq_true, List.all_eq_true] at h
+    obtain ⟨ht, hrest⟩ := h
+    obtain ⟨i1, i2, i3⟩ := ih hrest
+    refine ⟨?_, ?_, i3⟩
+    · simp only [noUseBeforeDef, Bool.and_eq_true, List.all_eq_true]
+      refine ⟨?_, i1⟩
+      intro y hy
+      obtain ⟨a, b⟩ := ht y hy
+      exact ⟨a, fun u hu => b u (List.mem_append_left _ hu)⟩
+    · intro u hu y hy
+      rcases List.mem_cons.mp hu with rfl | hu
+      · have := (ht y hy).2 s (by simp); simpa using this
+      · exact i2 u hu y hy
+
+/-- **Exactness side of `dependencies`.**  When no statement reads a symbol that it or a
+    later statement defines (single assignment, definition before use), every reported
+    dependency is a *leaf*: it is defined by no statement of the prefix, so no intermediate
+    symbol is ever reported.  Together with `dependencies_sound` the report is exactly the set
+    of leaves the value is computed from. -/
+theorem dependencies_only_leaves (pre : List Stmt) :
+    ∀ (live : List Sym), noUseBeforeDef pre = true →
+      ∀ y ∈ depsFrom pre live, ∀ s ∈ pre, y ∉ s.defs := by
+  induction pre using snoc_induction with
+  | nil => intro live _ y _ s hs; cases hs
+  | append_singleton pre s ih =>
+    intro live hwf y hy u hu
+    obtain ⟨w1, w2, w3⟩ := noUseBeforeDef_snoc pre s hwf
+    have hy' : y ∈ depsFrom pre (depsStep live s) := by
+      simpa [depsFrom, List.foldr_append] using hy
+    rcases List.mem_append.mp hu with hu | hu
+    · exact ih _ w1 y hy' u hu
+    · simp at hu; subst hu
+      rcases depsFrom_subset pre _ y hy' with h1 | ⟨t, ht, hyt⟩
+      · unfold depsStep at h1
+        split at h1
+        · rcases List.mem_append.mp h1 with h2 | h2
+          · have := (List.mem_filter.mp h2).2; simpa using this
+          · exact w3 y h2
+        · rename_i hno
+          intro hd
+          apply hno
+          simp only [List.any_eq_true]
+          exact ⟨y, hd, by simpa using h1⟩
+      · exact w2 t ht y hyt
+
+-- non-vacuity: the F16 program satisfies the side-condition and only the leaf C is reported
+example : noUseBeforeDef [.assign "A" (.f1 "exp" (.sym "C")), .assign "D" (.f2 "mul" (.sym "A") (.lit 2)),
+    .assign "B" (.f2 "add" (.sym "D") (.lit 1)), .assign "Z" (.f2 "add" (.sym "A") (.sym "B"))] = true := by decide
+example : dependenciesAt [.assign "A" (.f1 "exp" (.sym "C")), .assign "D" (.f2 "mul" (.sym "A") (.lit 2)),
+    .assign "B" (.f2 "add" (.sym "D") (.lit 1)), .assign "Z" (.f2 "add" (.sym "A") (.sym "B"))] 3 = .ok ["C"] := by decide
+/-- … whereas the pre-repair BFS order reported the intermediate symbol `A` as well (F16). -/
+theorem dependencies_bfs_inexact_witness :
+    dependenciesBfsAt [.assign "A" (.f1 "exp" (.sym "C")), .assign "D" (.f2 "mul" (.sym "A") (.lit 2)),
+      .assign "B" (.f2 "add" (.sym "D") (.lit 1)), .assign "Z" (.f2 "add" (.sym "A") (.sym "B"))] 3
+      = ["C", "A"] := by decide
+
 -- non-vacuity: shadowing example F2 (Y=S; S=7; W=S; Z=Y+W): Z depends on S
 example : dependenciesAt [.assign "Y" (.sym "S"), .assign "S" (.lit 7), .assign "W" (.sym "S"),
     .assign "Z" (.f2 "add" (.sym "Y") (.sym "W"))] 3 = .ok ["S"] := by decide
